@@ -92,25 +92,6 @@ class Helper:
                 self.defaults[p] = d
         self.implicit_first = cls is not None and not _is_static(fdef)
         self.is_gen = _has(fdef.body, (ast.Yield, ast.YieldFrom))
-        if not self.is_gen and len(fdef.body) > 1:
-            # the helper's own body is brought to its simplest form first (update chains, accumulation loops, single-use temporaries): a
-            # helper that builds and returns one value is then an expression helper
-            try:
-                from .normalize import merge_dict_updates, loops_to_comprehensions
-                from . import propagate
-                simp = copy.deepcopy(fdef)
-                wrapper = ast.Module(body=[simp], type_ignores=[])
-                merge_dict_updates(wrapper)
-                loops_to_comprehensions(wrapper)
-                propagate.propagate_function(simp, set())
-                loops_to_comprehensions(wrapper)
-                propagate.propagate_function(simp, set())
-                if len(simp.body) < len(fdef.body):
-                    ast.fix_missing_locations(simp)
-                    fdef = simp
-                    self.f = simp
-            except Exception:
-                pass
         body = fdef.body
         self.expr = body[0].value if len(body) == 1 and isinstance(body[0], ast.Return) and body[0].value is not None and not self.is_gen else None
         self.expr_simple = self.expr is not None
@@ -138,6 +119,27 @@ class Helper:
                 for x in body[:-1]:
                     m[x.targets[0].id] = _Subst(m).visit(copy.deepcopy(x.value))
                 self.expr = _Subst(m).visit(copy.deepcopy(body[-1].value))
+        # a helper that accumulates and returns one value (loop + append, dict + update chain, single-use temporaries) is an expression
+        # helper once its own body is brought to its simplest form; tried only when the body as written is not an expression already, so
+        # that the temporaries of straight-line helpers survive statement-level inlining
+        if self.expr is None and not self.is_gen and len(fdef.body) > 1 and not getattr(self, '_simplified', False):
+            try:
+                from .normalize import merge_dict_updates, loops_to_comprehensions
+                from . import propagate
+                simp = copy.deepcopy(fdef)
+                wrapper = ast.Module(body=[simp], type_ignores=[])
+                merge_dict_updates(wrapper)
+                loops_to_comprehensions(wrapper)
+                propagate.propagate_function(simp, set())
+                loops_to_comprehensions(wrapper)
+                propagate.propagate_function(simp, set())
+                if len(simp.body) == 1 and isinstance(simp.body[0], ast.Return) and simp.body[0].value is not None:
+                    ast.fix_missing_locations(simp)
+                    self.f = simp
+                    self.expr = simp.body[0].value
+                    self.expr_simple = True
+            except Exception:
+                pass
 
     def bind(self, call, receiver):
         """param -> argument expression"""
